@@ -94,7 +94,7 @@ func (c03) Generate(seed uint64, tier string, index int) any {
 	sc.Sync = s
 	nf := 10
 	if tier == "thorough" {
-		nf = 60
+		nf = 30
 	}
 	for i := 0; i < nf; i++ {
 		f := C03Fault{Kind: "flip", Class: []string{"token", "literal", "literal", "trailer"}[g.R.Intn(4)], Pick: g.R.Intn(1 << 20), Bit: g.R.Intn(8)}
